@@ -290,6 +290,22 @@ def _consts_in(term) -> set:
     return out
 
 
+def _all_members_loop(prog, qual) -> bool:
+    """The loop spelling of `all(pred(a) for a in members)`: some path leaves the loop with False under a failed recursive test
+    of an element, and some path returns True after it."""
+    f = prog.functions.get(qual)
+    if f is None:
+        return False
+    fails = passes = False
+    for p in P.paths_of(prog, f):
+        in_loop = any(e[0] == "loop" and e[2] == 1 for e in p.events)
+        if p.exit[0] == "return" and p.exit[1] == ("const", False) and in_loop and any((not pol) and T.is_call_to(g, qual) and g[2] and g[2][0][0] == "elem" for g, pol in p.guards()):
+            fails = True
+        if p.exit[0] == "return" and p.exit[1] == ("const", True) and any(e[0] == "loop" for e in p.events):
+            passes = True
+    return fails and passes
+
+
 def r17_8(prog, rep):
     """Special-form predicates: the facts each answer must be computed from (resolved callees and constants), whatever the spelling."""
     insp = prog.module(C.INSP)
@@ -325,7 +341,7 @@ def r17_8(prog, rep):
         "isclassvartype": lambda ts: has_ref(ts, "typing.ClassVar"),
         "isfixedtupletype": lambda ts: has_ref(ts, "builtins.tuple") and any(Ellipsis in _consts_in(t0) for t0 in ts) and has_call(ts, f"{C.INSP}.args", "typing.get_args"),
         "isstructuredtype": lambda ts: has_call(ts, f"{C.INSP}.isfixedtupletype") and has_call(ts, f"{C.INSP}.isnamedtuple") and has_call(ts, f"{C.INSP}.istypeddict") and has_call(ts, f"{C.INSP}.isstdlibsubtype") and has_call(ts, f"{C.INSP}.isuniontype") and has_call(ts, f"{C.INSP}.isliteral"),
-        "isstdlibtype": lambda ts: has_ref(ts, f"{C.INSP}.STDLIB_TYPES") and has_call(ts, f"{C.INSP}.resolve_supertype") and has_call(ts, "builtins.all"),
+        "isstdlibtype": lambda ts: has_ref(ts, f"{C.INSP}.STDLIB_TYPES") and has_call(ts, f"{C.INSP}.resolve_supertype") and (has_call(ts, "builtins.all") or _all_members_loop(prog, f"{C.INSP}.isstdlibtype")),
         "isbuiltintype": lambda ts: has_ref(ts, f"{C.INSP}.BUILTIN_TYPES") and has_call(ts, f"{C.INSP}.resolve_supertype"),
         "isunresolvable": lambda ts: has_ref(ts, f"{C.INSP}._UNRESOLVABLE"),
         "ishashable": lambda ts: any(T.contains(t0, lambda s: s[0] == "cmp" and s[1] == "isnot" and s[3] == ("const", None)) for t0 in ts),
